@@ -4,6 +4,7 @@ import (
 	"fmt"
 	"go/constant"
 	"go/types"
+	"os"
 	"sort"
 	"strings"
 
@@ -51,6 +52,8 @@ type shaper struct {
 	wrapMem  map[string]*elem
 	aborts   map[string]string
 	literals map[string][]string // token kind -> leaf nodes its text is converted to
+	built    map[string]int      // transformer -> results checked (G8)
+	misbuilt map[string]string   // transformer -> first result that is not its documented node
 	classes  *Classes
 	nodeT    *types.Interface
 	nodeSp   *ssa.Package
@@ -471,6 +474,7 @@ func (s *shaper) apply(g *G, q seq) []seq {
 		} else if sl, ok := res.(*absint.Slice); ok {
 			var r seq
 			for _, rv := range sl.Elems() {
+				s.checkBuilt(g.Str, rv, desc())
 				switch x := rv.(type) {
 				case *elem:
 					r = append(r, x)
@@ -562,7 +566,7 @@ var sharedClasses *Classes
 func SharedClasses() *Classes { return sharedClasses }
 
 func (e *eng) shapes() {
-	s := &shaper{e: e, summary: map[string][]seq{}, wrapMem: map[string]*elem{}, aborts: map[string]string{}, literals: map[string][]string{},
+	s := &shaper{e: e, summary: map[string][]seq{}, wrapMem: map[string]*elem{}, aborts: map[string]string{}, literals: map[string][]string{}, built: map[string]int{}, misbuilt: map[string]string{},
 		classes: &Classes{Field: map[string]map[string]bool{}, Def: map[string]map[string]bool{}, Ops: map[string]map[string]bool{}}}
 	names := load.SortedKeys(e.defs)
 	rounds := 0
@@ -609,10 +613,25 @@ func (e *eng) shapes() {
 		}
 		e.s.Bad("G4", k, pos, v)
 	}
+	// G8: every transformer builds the node of its construct
+	for _, tr := range load.SortedKeys(builds) {
+		if s.built[tr] == 0 {
+			continue
+		}
+		key := "parser." + tr + " / builds the node of its construct from any pieces"
+		if why, bad := s.misbuilt[tr]; bad {
+			e.s.Bad("G8", key, "parser/transformer.go", fmt.Sprintf("%s must build %v for every input its grammar rule produces: %s. A tree rewritten while it is built is a different program (a negated comparison is not the opposite comparison for NaN operands, a self-assignment inside a function creates the function's own variable)", tr, builds[tr], why))
+		} else {
+			e.s.OK("G8", key, "parser/transformer.go", fmt.Sprintf("%d results, all %v", s.built[tr], builds[tr]))
+		}
+	}
 	// G6: a literal's text is converted by the exact conversion of its kind
 	wantLit := map[string][]string{
 		"IntLit":   {"Float(strconv.ParseFloat(text,64))", "Int(strconv.Atoi(text))"},
 		"FloatLit": {"Float(strconv.ParseFloat(text,64))"},
+	}
+	if os.Getenv("CALCSA_DUMP_LIT") != "" {
+		fmt.Println("literals:", s.literals)
 	}
 	for _, k := range []string{"IntLit", "FloatLit"} {
 		var got []string
@@ -630,6 +649,22 @@ func (e *eng) shapes() {
 			e.s.OK("G6", key, "parser/token_wrapper.go", strings.Join(got, " | "))
 		} else {
 			e.s.Bad("G6", key, "parser/token_wrapper.go", fmt.Sprintf("an integer literal is the exact integer its digits spell (strconv.Atoi; a float only when it does not fit), a float literal is strconv.ParseFloat(text, 64); any detour (an integer through a float loses digits above 2^53) changes the value a literal stands for. Expected %v, found %v", wantLit[k], got))
+		}
+	}
+	// G6 (strings): the value of a string literal is its text without the two
+	// delimiting quotes, escaped quotes replaced by quotes (either order)
+	{
+		un := `strings.ReplaceAll(text,"\\\"","\"")`
+		okForms := map[string]bool{
+			"String(slice(" + un + ",1,(len(" + un + ")-1),nil))":                     true,
+			`String(strings.ReplaceAll(slice(text,1,(len(text)-1),nil),"\\\"","\""))`: true,
+		}
+		got := uniqStr(append([]string(nil), s.literals["StringLit"]...))
+		key := "parser.tokenWrapper.Wrap / StringLit text -> leaf"
+		if len(got) == 1 && okForms[got[0]] {
+			e.s.OK("G6", key, "parser/token_wrapper.go", got[0])
+		} else {
+			e.s.Bad("G6", key, "parser/token_wrapper.go", fmt.Sprintf("a string literal stands for its text without the first and the last character (the delimiting quotes), with \\\" replaced by \"; anything else (trimming every quote at the ends, for one) changes literals that end in an escaped quote. Found %v", got))
 		}
 	}
 	// per transformer obligations (floor)
@@ -702,4 +737,47 @@ func uniqStr(s []string) []string {
 		}
 	}
 	return out
+}
+
+// builds is the documented abstract syntax: which node each transformer builds
+// ("-" = may also hand an element through unchanged).
+var builds = map[string][]string{
+	"mkUnaryOp": {"UnOp"}, "mkReturn": {"Return"}, "mkYield": {"Yield"}, "mkAssign": {"Assign"},
+	"mkLeftChain": {"BinOp", "-"}, "mkIndex": {"IndexAt", "IndexFromTo", "-"}, "mkList": {"List"},
+	"mkBlock": {"Block", "-"}, "mkFCall": {"Call"}, "mkFunction": {"Function"}, "mkIf": {"If", "IfElse"},
+	"mkWhile": {"While"}, "mkFor": {"For"},
+}
+
+// checkBuilt (G8): a transformer builds the node of its construct from the
+// parsed pieces whatever those pieces are: it never answers with another kind
+// of node or with one of the pieces (an "optimised" tree is a different program:
+// !(a < b) is not a >= b for NaN, x = x inside a function creates the local).
+func (s *shaper) checkBuilt(tr string, v absint.Val, input string) {
+	allowed, ok := builds[tr]
+	if !ok {
+		return
+	}
+	got := ""
+	switch x := v.(type) {
+	case *elem:
+		got = "-"
+	case *absint.Iface:
+		got = typeOfKey(altKey(x))
+	default:
+		return
+	}
+	s.built[tr]++
+	for _, a := range allowed {
+		if a == got {
+			return
+		}
+	}
+	if _, dup := s.misbuilt[tr]; !dup {
+		if got == "-" {
+			got = "one of its input elements, unchanged"
+		} else {
+			got = "a " + got + " node"
+		}
+		s.misbuilt[tr] = fmt.Sprintf("applied to %s it answers with %s", input, got)
+	}
 }
